@@ -561,7 +561,8 @@ def check_c07(idx: Index, tier: str, res: Result) -> None:
                        "(model.dt in the emitted text), not spliced as numbers when the equation is built.")
     res.rules = ["WIRING: key read == field written, per channel", "APPLY: runner siblings apply all three kinds",
                  "DEFUSE: attributes written by change_runspecs have readers", "MERGE: base values merged identically, overrides win",
-                 "KILL: scenario-file run specs not overwritten unconditionally", "BIND: no run-spec number spliced at term() time"]
+                 "KILL: scenario-file run specs not overwritten unconditionally", "BIND: no run-spec number spliced at term() time",
+                 "OLDSPEC: no condition of a settings channel reads a run spec the channel is about to replace"]
     res.not_decided = ["numeric equality with a directly built model", "XMILE-sourced models' own run-spec handling (the statement limits "
                        "run-spec overrides to SD DSL models)"]
     n = 0
@@ -571,6 +572,24 @@ def check_c07(idx: Index, tier: str, res: Result) -> None:
     n += _channel_wiring(res, idx.func(RUNNER, "SdRunner.run_scenario_step"), {"sc"}, "per-step settings")
     n += _channel_wiring(res, idx.func(RUNNER, "SdRunner._run_scenarios"), {"sc"}, "batch run")
     res.floor("channel wiring instances", n, 14)
+    # OLDSPEC (round 10): the settings determine the run specs - while a channel applies a settings dictionary, no *condition* reads a
+    # run-spec attribute of the scenario that the same channel stores later on: that is the value of the previous settings (a stoptime
+    # "validated" against the old starttime is dropped or kept depending on history, not on the settings that carry both).
+    for rel, qual, recvs in ((SCEN, "SimulationScenario.configure_settings", {"self"}), (SERVER, "BptkServer._run_resource", {"scenario"})):
+        fi = idx.func(rel, qual)
+        def _spec_attr(x) -> Optional[str]:
+            return x.attr if isinstance(x, ast.Attribute) and isinstance(x.value, ast.Name) and x.value.id in recvs and x.attr in RUNSPECS else None
+        spec_stores = [(seq(t), _spec_attr(t)) for a_ in ast.walk(fi.node) if isinstance(a_, (ast.Assign, ast.AugAssign))
+                       for t in (a_.targets if isinstance(a_, ast.Assign) else [a_.target]) if _spec_attr(t)]
+        tests = [t_.test for t_ in ast.walk(fi.node) if isinstance(t_, (ast.If, ast.IfExp, ast.While))]
+        stale = [(t_, y) for t_ in tests for y in ast.walk(t_) if _spec_attr(y) and isinstance(y.ctx, ast.Load)
+                 and any(k == y.attr and sq > seq(t_) for sq, k in spec_stores)]
+        res.check("OLDSPEC", "%s: no condition reads a run spec it is about to replace (%d tests, %d stores)" % (qual, len(tests), len(spec_stores)),
+                  not stale, fi.loc(stale[0][0]) if stale else fi.loc(), fi.qual, src(stale[0][0])[:100] if stale else "",
+                  "%s decides what to do with the new settings by `%s`, which reads %s - the value left by the previous settings, replaced "
+                  "further down by the same call: whether a run spec of the new settings takes effect depends on the scenario's history"
+                  % (qual, src(stale[0][0])[:80] if stale else "", src(stale[0][1]) if stale else ""),
+                  key="OLDSPEC/%s/%s" % (qual, stale[0][1].attr if stale else ""))
     # each channel covers each kind
     for rel, qual, label, kinds in ((SCEN, "SimulationScenario.__init__", "registration", KINDS + RUNSPECS),
                                     (SCEN, "SimulationScenario.configure_settings", "session settings", KINDS + RUNSPECS),
